@@ -2461,3 +2461,115 @@ def crate_path_rule(syn, prop, rule="C16.R15"):
     r.inst(templates_examined=n)
     r.floor = 1
     return r
+
+
+def passthrough_fields_rule(syn, prop, rule="C07.R7"):
+    """what the container attribute says about export, path, concretisation and bounds holds whatever shape the body takes"""
+    r = Result(rule, "every `DerivedTS { .. }` built in macros/src/types takes `export`, `export_to`, `concrete` and `bound` from the container attribute it was built from (`attr.X` / `enum_attr.X`, cloned or moved): a body that is replaced (`type`, `as`), empty, or a unit still honours `concrete(..)` and `bound`")
+    FIELDS = ("export", "export_to", "concrete", "bound")
+    n = 0
+    for fn in syn.fns_in("macros/src/types/"):
+        for e in S.events(fn, "struct"):
+            if S.squash(e["path"]) != "DerivedTS":
+                continue
+            vals = {f["name"]: S.squash(f["value"]) for f in e["fields"]}
+            n += 1
+            bad = []
+            for k in FIELDS:
+                v = vals.get(k)
+                if v is None or not re.match(r"^(attr|enum_attr|struct_attr)\.%s(\.clone\(\))?$" % k, v):
+                    bad.append((k, v))
+            r.inst(fn=fn["qual"], fields={k: vals.get(k) for k in FIELDS}, ok=not bad)
+            for k, v in bad:
+                r.fail(prop, "container-setting-dropped %s %s" % (fn["qual"], k),
+                       "DerivedTS.%s is `%s` instead of the container attribute's value: e.g. `#[ts(type = \"string\", concrete(T = i32))] struct Token<T>` becomes generic over T again (`type Token<T> = string;`, referenced as `Token<number>`)" % (k, v),
+                       fn["file"], e["line"])
+    r.stats["literals"] = n
+    r.floor = 12
+    return r
+
+
+def post_merge_rule(crate, prop, rule="C10.R15"):
+    """after the two spellings have been merged, the merged value is what the rest of the derive sees"""
+    from vlib import mirlib as M
+    from vlib.mirlib import fn_matches, op_local, op_place, origins
+    r = Result(rule, "after merge() a from_attrs only attaches the documentation and escapes `tag`/`content` in place: no other field of the merged attribute value is written (a rule that is `normalised away` here reads as `not specified` to everything downstream, e.g. to from_variant's `rename_all.or(rename_all_fields)`)")
+    ALLOWED = {".docs", ".tag", ".content"}
+    for x in ("StructAttr", "EnumAttr", "VariantAttr", "FieldAttr"):
+        cands = [b for b in crate.bodies if b.path.endswith("%s::from_attrs" % x)]
+        if not cands:
+            r.fail(prop, "anchor-missing %s::from_attrs" % x, "not found")
+            continue
+        b = cands[0]
+        merges = [blk for blk, t in b.calls() if fn_matches(t, r"Attr>::merge$", r"Attr::merge$") and not b.is_cleanup(blk)]
+        # the local returned in Ok(..)
+        res_locals = set()
+        for blk in range(b.n):
+            for st in b.stmts(blk):
+                if st["k"] == "assign" and st["dst"]["l"] == 0 and st["rv"]["k"] == "agg" and st["rv"].get("variant") == "Ok" and st["rv"]["ops"]:
+                    pl = op_place(st["rv"]["ops"][0])
+                    if pl:
+                        cur = pl["l"]
+                        seen = set()
+                        while cur is not None and cur not in seen:
+                            seen.add(cur)
+                            res_locals.add(cur)
+                            nxt = None
+                            for db, di, d in M.def_sites(b, cur):
+                                if di != "term" and d["rv"]["k"] == "use":
+                                    p2 = op_place(d["rv"]["op"])
+                                    if p2 and not p2["p"]:
+                                        nxt = p2["l"]
+                            cur = nxt
+        writes = []
+        for blk in range(b.n):
+            if b.is_cleanup(blk):
+                continue
+            after = (not merges) or any(blk in b.reachable_from([m]) for m in merges)
+            for st in b.stmts(blk):
+                if st["k"] == "assign" and st["dst"]["l"] in res_locals and st["dst"]["p"]:
+                    fld = "".join(p for p in st["dst"]["p"] if p.startswith("."))
+                    if after and fld and fld not in ALLOWED:
+                        writes.append((fld, st.get("span")))
+        r.inst(fn=b.path, fields_written_after_merge=sorted({w for w, _ in writes}))
+        for fld in sorted({w for w, _ in writes}):
+            r.fail(prop, "merged-value-rewritten %s::from_attrs %s" % (x, fld),
+                   "from_attrs overwrites `%s` of the merged attributes: a value that was written (by either spelling) no longer reaches the code that reads it - `#[serde(rename_all = \"snake_case\")]` on a variant is meant to opt out of the enum's `rename_all_fields`, and is read as `not given`" % fld,
+                   b.file(), b.line())
+    r.floor = 4
+    return r
+
+
+def operand_scanner_rule(syn, prop, rule="C02.R10"):
+    """intersection_operand() decides whether a text is a union by finding a `|` at nesting depth 0, outside string literals and
+    comments.  Its arms are the necessary parts of that decision; what each arm does character by character is a string function
+    and is not decided here."""
+    r = Result(rule, "intersection_operand() (a) reports a union only for a `|` met at depth 0 - the arm is guarded by the depth test, not decided at the first `|` anywhere; (b) tracks all four bracket pairs; (c) has an arm that skips quoted text and one that skips `/* */` comments, since `|` and brackets occur inside both (doc comments of inlined members, renamed names)")
+    fn = syn.fn("intersection_operand", "ts-rs/src/lib.rs")
+    if fn is None:
+        r.fail(prop, "anchor-missing intersection_operand", "not found")
+        return r
+    ms = [e for e in S.events(fn, "match") if S.squash(e["scrut"]) in ("c", "ch")]
+    if not ms:
+        r.fail(prop, "anchor-missing scanner match", "no `match c`", fn["file"], fn["line"])
+        return r
+    arms = ms[0]["arms"]
+    def arm_with(ch):
+        return [a for a in arms if ("'%s'" % ch) in a["pat"]]
+    pipe = arm_with("|")
+    guarded = bool(pipe) and all(re.match(r"^depth==0$", S.squash(a.get("guard") or "")) for a in pipe)
+    opens = all(arm_with(c) for c in "([{<")
+    closes = all(arm_with(c) for c in ")]}>")
+    quotes = bool(arm_with('"'))
+    comments = any("'/'" in a["pat"] and "*" in S.squash(a.get("guard") or "") for a in arms)
+    r.inst(fn=fn["qual"], pipe_only_at_depth_0=guarded, bracket_pairs=opens and closes, skips_quoted_text=quotes, skips_comments=comments)
+    if not guarded:
+        r.fail(prop, "operand-scanner pipe-not-guarded-by-depth", "the `|` arm is not guarded by `depth == 0`: the first `|` anywhere decides, so `Array<number | null> | null` (a union whose first member contains a bracketed `|`) is taken for a non-union and loses its parentheses", fn["file"], ms[0]["line"])
+    if not (opens and closes):
+        r.fail(prop, "operand-scanner bracket-pairs", "not all of ( ) [ ] { } < > are tracked", fn["file"], ms[0]["line"])
+    if not quotes:
+        r.fail(prop, "operand-scanner no-quote-arm", "quoted text is not skipped: a `|` or a bracket inside a renamed name is counted", fn["file"], ms[0]["line"])
+    if not comments:
+        r.fail(prop, "operand-scanner no-comment-arm", "`/* */` comments are not skipped: an apostrophe, bracket or `|` inside the doc comment of an inlined member changes the decision (`/// the circle's radius` opens a `string` that swallows the rest of the type)", fn["file"], ms[0]["line"])
+    r.floor = 1
+    return r
